@@ -335,6 +335,10 @@ func checkBidStrategy(p *core.Prog, r *core.Report, ds *core.Describer, rel stri
 			r.Check(ds.D(bv).HasFieldSuffix("bid"), "C09.d", sbase+"|participation-bid", p.Pos(sl.Alloc.Pos()), "the participation records the response's bid", "the participation records "+ds.D(bv).String())
 		}
 	}
+	recordedScore, comparedOther := "", ""
+	if lits := core.StructLits(setter, "blockauctioneer.Participation"); len(lits) == 1 && lits[0].Fields["Score"] != nil {
+		recordedScore = ds.D(lits[0].Fields["Score"]).String()
+	}
 	core.EachInstr(setter, func(in ssa.Instruction) {
 		st, ok := in.(*ssa.Store)
 		if !ok {
@@ -381,6 +385,9 @@ func checkBidStrategy(p *core.Prog, r *core.Report, ds *core.Describer, rel stri
 					}
 				}
 				if c.Op != "" && isBigCmp(c.X) && c.Y.Kind == "const" && c.Y.Name == "0" && c.X.Args[1].HasFieldSuffix("WinningParticipation", "Score") {
+					if recordedScore != "" && c.X.Args[0].String() != recordedScore {
+						comparedOther = c.X.Args[0].String()
+					}
 					for s := 0; s < 2; s++ {
 						if rel := c.RelOnEdge(s); rel == ">" || rel == ">=" {
 							return s
@@ -391,6 +398,9 @@ func checkBidStrategy(p *core.Prog, r *core.Report, ds *core.Describer, rel stri
 			}
 			w = core.Unguarded(ds, setter, nil, isSt, higher)
 			r.Check(w == nil, "C09.d", sbase+"|winner|higher-score", p.Pos(st.Pos()), "the winner is replaced only when there is none or the new score is higher", "the winner can be replaced by a bid whose score is not higher than the current winner's", p.WitnessText(w)...)
+			if w == nil && recordedScore != "" {
+				r.Check(comparedOther == "", "C09.d", sbase+"|winner|compares-recorded-score", p.Pos(st.Pos()), "what is compared with the winner's recorded score is the score recorded for this response", "the value compared with the current winner's recorded Score is "+comparedOther+", but the Score recorded for this response is "+recordedScore+": the comparison mixes two scales (a raw value against an adjusted one), so the bid with the highest adjusted score does not always win")
+			}
 			r.Check(ds.D(st.Val).Kind == "alloc" || len(core.StructLits(setter, "blockauctioneer.Participation")) > 0, "C09.d", sbase+"|winner|value", p.Pos(st.Pos()), "the winner is this response's participation", "the winner stored is "+ds.D(st.Val).String())
 		case "Providers":
 			d := ds.D(st.Val)
@@ -787,6 +797,41 @@ func checkRelayBidCache(p *core.Prog, r *core.Report, ds *core.Describer) {
 							return true
 						}
 					}
+				}
+			}
+			if cb != ab {
+				// … and the caching function is called on every path after a successful auction: an auction without a
+				// winner that leaves early keeps the previous winner of the same slot, parent and proposer on offer
+				cbCalls := core.Calls(ab, func(c *ssa.CallCommon) bool { f := c.StaticCallee(); return f != nil && f == cb })
+				isCb := func(in ssa.Instruction) bool {
+					for _, c := range cbCalls {
+						if in == c.(ssa.Instruction) {
+							return true
+						}
+					}
+					return false
+				}
+				for _, ac := range core.Calls(ab, func(c *ssa.CallCommon) bool {
+					res := c.Signature().Results()
+					return res.Len() == 2 && strings.HasSuffix(res.At(0).Type().String(), "blockauctioneer.Results") && core.IsErrorType(res.At(1).Type())
+				}) {
+					call, ok := ac.(*ssa.Call)
+					if !ok || len(cbCalls) == 0 {
+						continue
+					}
+					q2 := core.PathQuery{Fn: ab, From: call, Target: core.IsReturn, Avoid: isCb}
+					if errEx := core.ExtractOf(call, 1); errEx != nil {
+						est := guardEdges(ds, ab, func(c core.Cond) int { return core.ErrNilSucc(c, errEx) })
+						q2.Edge = func(b *ssa.BasicBlock, succ int) bool {
+							if e, ok := est[b]; ok && e != succ {
+								return false
+							}
+							return true
+						}
+					}
+					w2 := q2.Find()
+					r.Check(w2 == nil, "C09.f", "blockrelay|auctionBlock|always-caches", p.Pos(call.Pos()), "every path after a successful auction hands its outcome to the caching function",
+						"auctionBlock can return after a successful auction without handing the outcome to the caching function: the entry of an earlier auction for the same slot, parent and proposer stays in the cache and is served although the latest auction had no (or another) winner", p.WitnessText(w2)...)
 				}
 			}
 			w := q.Find()
